@@ -56,6 +56,7 @@ def _run(ctx: Context) -> None:
     ctx.rule(r6_parent_seeds)
     ctx.rule(c02.r3_layout)
     ctx.rule(r7_non_interference, v)
+    ctx.rule(c05.r2a_global_state)
 
 
 def _is_fresh_draw(f: FuncInfo, e: ast.expr | None) -> bool:
